@@ -190,7 +190,9 @@ func c18() int {
 						anyFail = anyFail || expectFail[i]
 					}
 					// implementation
-					eng := engineh.Start(seedStore(), nil)
+					implStore := seedStore()
+					seedLen := implStore.Len()
+					eng := engineh.Start(implStore, nil)
 					b := recbackend.New("l1")
 					b.Ledgers["l1"].W = eng.Cmd
 					var bulk v2.Bulk
@@ -229,6 +231,16 @@ func c18() int {
 						}
 					}()
 					implDigest, _ := storeDigest(eng.Store)
+					// the transaction-producing entries the request appended, in order (for the content of the results)
+					var txEntries []*ledger.Transaction
+					for _, l := range eng.Store.Snapshot()[seedLen:] {
+						switch p := l.Data.(type) {
+						case ledger.NewTransactionLogPayload:
+							txEntries = append(txEntries, p.Transaction)
+						case ledger.RevertedTransactionLogPayload:
+							txEntries = append(txEntries, p.RevertTransaction)
+						}
+					}
 					eng.Stop()
 					atomic.AddInt64(&evals, 1)
 					if anyFail {
@@ -281,6 +293,31 @@ func c18() int {
 							}
 							if !isErr && results[i].ResponseType != kinds[seq[i]].Action {
 								return "result-type", fmt.Sprintf("result %d has type %s for an element of action %s", i, results[i].ResponseType, kinds[seq[i]].Action)
+							}
+						}
+						// the result at a position is the outcome of the element at that position: the k-th result that carries a
+						// transaction names the k-th transaction the request committed (only when no element replays another's key)
+						if ikMode == "none" || ikMode == "distinct" {
+							k := 0
+							for i := 0; i < e.results; i++ {
+								act := kinds[seq[i]].Action
+								if e.expectFail[i] || (act != "CREATE_TRANSACTION" && act != "REVERT_TRANSACTION") {
+									continue
+								}
+								raw, _ := json.Marshal(results[i].Data)
+								var got struct {
+									ID       *big.Int        `json:"id"`
+									Postings ledger.Postings `json:"postings"`
+								}
+								_ = json.Unmarshal(raw, &got)
+								if k >= len(txEntries) {
+									return "result-content", fmt.Sprintf("result %d (%s) reports a transaction, the request committed only %d", i, kinds[seq[i]].Name, len(txEntries))
+								}
+								want := txEntries[k]
+								k++
+								if got.ID == nil || got.ID.Cmp(want.ID) != 0 || fmt.Sprint(got.Postings) != fmt.Sprint(want.Postings) {
+									return "result-content", fmt.Sprintf("result %d (%s) carries transaction %v %v, the element at that position committed %s %v", i, kinds[seq[i]].Name, got.ID, got.Postings, want.ID, want.Postings)
+								}
 							}
 						}
 						if failedFlag != fail {
